@@ -162,9 +162,86 @@ def unit_program(r, k):
     return {'deftype': None, 'types': [], 'main': main + stmts, 'procs': procs, 'features': ['unit']}
 
 
+# argument forms: which spellings of an argument alias the caller's location (a bare lvalue) and which do not
+ARG_LOCS = {
+    'var': ('zx{t}', ''),
+    'elem': ('za{t}(2)', 'DIM za{t}(1 TO 3)\n'),
+    'elem2': ('zm{t}(1, 0)', 'DIM zm{t}(1 TO 2, 0 TO 1)\n'),
+    'field': ('zr.f{n}', 'DIM zr AS zt\n'),
+    'recelem': ('zq(2).f{n}', 'DIM zq(1 TO 2) AS zt\n'),
+    'shared': ('zg{t}', 'DIM SHARED zg{t}\n'),
+}
+ARG_FORMS = [('{l}', True), ('({l})', False), ('(({l}))', False), ('{l} + {zero}', False), ('{one} * {l}', False),
+             ('-(-{l})', False), ('({l}) + {zero}', False)]
+ARG_STR_FORMS = [('{l}', True), ('({l})', False), ('{l} + ""', False), ('"" + {l}', False), ('(({l}))', False)]
+
+
+def argform_programs():
+    out = []
+    tn = {'%': 'a', '&': 'b', '!': 'c', '#': 'd', '$': 'e'}
+    for t in '%&!#$':
+        for lk, (loc, decl) in ARG_LOCS.items():
+            l = loc.format(t=t, n=tn[t])
+            forms = ARG_STR_FORMS if t == '$' else ARG_FORMS
+            for call in ('bare', 'call'):
+                lines = ['TYPE zt', 'fa AS INTEGER', 'fb AS LONG', 'fc AS SINGLE', 'fd AS DOUBLE', 'fe AS STRING', 'END TYPE',
+                         decl.format(t=t, n=tn[t]).rstrip('\n')]
+                exp = []
+                v = 5
+                for form, aliases in forms:
+                    arg = form.format(l=l, zero={'%': '0', '&': '0&', '!': '0!', '#': '0#'}.get(t, ''),
+                                      one={'%': '1', '&': '1&', '!': '1!', '#': '1#'}.get(t, ''))
+                    init = '"v"' if t == '$' else str(v)
+                    lines.append(f'{l} = {init}')
+                    lines.append(f'zbump {arg}' if call == 'bare' else f'CALL zbump({arg})')
+                    lines.append(f'PRINT {l}')
+                    if t == '$':
+                        exp.append('v+' if aliases else 'v')
+                    else:
+                        exp.append(v + 1 if aliases else v)
+                lines = [x for x in lines if x]
+                lines += ['END', f'SUB zbump (p{t})', ('p$ = p$ + "+"' if t == '$' else f'p{t} = p{t} + 1'), 'END SUB']
+                out.append(('\n'.join(lines) + '\n', exp, f'{t}|{lk}|{call}'))
+    return out
+
+
+def run_argforms(case):
+    st = {'unit_programs': 0, 'programs': 0, 'runs_compared': 0, 'events_compared': 0, 'typed_print_items': 0,
+          'error_outcomes_compared': 0, 'trap_lines_compared': 0, 'rejected': 0, 'ref_script_exhausted': 0, 'features': ['argforms'],
+          'error_kinds': [], 'argument_forms_checked': 0}
+    viol = []
+    shapes = []
+    for text, exp, key in argform_programs()[case['lo']:case['hi']]:
+        for cfg in rt.CONFIGS6:
+            c = rt.compile_src(text, cfg[0], cfg[1])
+            cn = rt.cfg_name(cfg)
+            if c.status != 'ok':
+                viol.append(V(f'C01:valid-program-rejected:{c.status}:{c.sig or c.err_code}', f'{cn} argument forms {key}: {c.msg}', text=text))
+                st['rejected'] += 1
+                break
+            r = rt.run_module(rt.load_module(c.modbytes), {}, max_ticks=20000)
+            st['programs'] += 1
+            st['runs_compared'] += 1
+            got = [e[1][0][2] for e in r.history if e[0] == 'print' and e[1]]
+            st['events_compared'] += len(got)
+            st['typed_print_items'] += len(got)
+            st['argument_forms_checked'] += len(exp)
+            shapes.append(f'argforms|{key}|{cn}')
+            if got != exp or r.outcome != ['halt']:
+                bad = next((i for i, (a, b) in enumerate(zip(got, exp)) if a != b), len(got))
+                viol.append(V(f"C01:argument-aliasing:{key.split('|')[1]}:{'O0' if cfg[0] == 0 else 'opt'}",
+                              f'{cn} {key}: values after the calls {got}, expected {exp} (first difference at call {bad}); '
+                              f'run ended {r.outcome}', text=text))
+    return {'viol': viol, 'stats': st, 'shape': shapes, 'nontrivial': True,
+            'sample': {'source': argform_programs()[case['lo']][0][:400], 'expected': argform_programs()[case['lo']][1]}}
+
+
 def gen_cases(tier, seed):
     n = 130 if tier == 'quick' else 2500
     cs = []
+    na = len(argform_programs())
+    for lo in range(0, na, 6):
+        cs.append({'argforms': True, 'lo': lo, 'hi': min(na, lo + 6), 'seed': seed, 'k': lo})
     nu = 120 if tier == 'quick' else 3000
     for i in range(nu):
         cs.append({'unit': True, 'seed': seed * 100003 + 500000 + i, 'k': i, 'nscripts': 1})
@@ -215,6 +292,8 @@ def run_case(case):
     st = {'unit_programs': 1 if case.get('unit') else 0, 'programs': 0, 'runs_compared': 0, 'events_compared': 0, 'typed_print_items': 0, 'error_outcomes_compared': 0,
           'trap_lines_compared': 0, 'rejected': 0, 'ref_script_exhausted': 0, 'features': [], 'error_kinds': []}
     viol = []
+    if case.get('argforms'):
+        return run_argforms(case)
     if case.get('unit'):
         import random as _random
         prog = unit_program(_random.Random(case['seed']), case['k'])
